@@ -3,8 +3,9 @@
    covers every alias pattern.  Pure_dest / Inplace: the value left in the destination equals the value of the
    reference call on four DISTINCT objects holding the same operand values (ProofsBase.fresh); Frame: no other
    object of the caller changes.  Ring_alias_free = all 18 operations of the ring interface. *)
-From Coq Require Import ZArith.
-From C15 Require Import Model ModelPoly ProofsBase ProofsMr ProofsMg ProofsMi ProofsInt ProofsOld ProofsPoly.
+From Coq Require Import ZArith List.
+Import ListNotations.
+From C15 Require Import Model ModelPoly ModelRm ModelExt ProofsBase ProofsMr ProofsMg ProofsMi ProofsInt ProofsOld ProofsRm ProofsPoly ProofsExt.
 Local Open Scope Z_scope.
 
 Theorem C15_modular_ruint_alias_free : forall W p same, Ring_alias_free (mr_op W p same).
@@ -108,3 +109,102 @@ Theorem C15_poly_gcd_swapped_refuted :
     pexec (P_gcd_swapped 101 (U g) (U a) (U b)) h (U g) <> gcd_val 101 (h (U a)) (h (U b)).
 Proof. exact poly_gcd_swapped_refuted. Qed.
 Print Assumptions C15_poly_gcd_swapped_refuted.
+(* ---- RecInt rmint<K,MG> (ModelRm.v; add ModelRm ProofsRm to the Require line): the 30 operations of rm_op
+        (add sub neg mul square inv div mod exp, their native-word overloads, the in-place forms, addmul), both
+        Montgomery modes (mg = false: MG_INACTIVE, true: MG_ACTIVE), every modulus p, constants p1, r, word w *)
+Theorem C15_rmint_alias_free : forall mg W p p1 r w, Rm_alias_free (rm_op mg W p p1 r w).
+Proof. exact rm_alias_free. Qed.
+Print Assumptions C15_rmint_alias_free.
+(* the body of sub(a,b,c) before 58e2703: sub(x, x, y), x = 5, y = 7 mod 101 leaves 188 instead of 99 *)
+Theorem C15_old_rmint_sub_refuted : ~ Pure_dest (lift3 (rm_sub_old W64 101)).
+Proof. exact rm_sub_old_refuted. Qed.
+Print Assumptions C15_old_rmint_sub_refuted.
+(* the wrap-around of the current body is arithmetically right, whatever coincides *)
+Theorem C15_rmint_sub_value :
+  forall W p (h : store) (a b c : positive),
+    0 < p <= W -> 0 <= h (U b) < p -> 0 <= h (U c) < p ->
+    exec (rm_sub W p (U a) (U b) (U c)) h (U a) = (h (U b) - h (U c)) mod p.
+Proof. exact rm_sub_value. Qed.
+Print Assumptions C15_rmint_sub_value.
+Theorem C15_rmint_add_value :
+  forall W p (h : store) (a b c : positive),
+    0 < p <= W -> 0 <= h (U b) < p -> 0 <= h (U c) < p ->
+    exec (rm_add W p (U a) (U b) (U c)) h (U a) = (h (U b) + h (U c)) mod p.
+Proof. exact rm_add_value. Qed.
+Print Assumptions C15_rmint_add_value.
+(* ---- RecInt unsigned division rudiv.h: div(q,r,a,b) leaves a / b in q and a mod b in r and changes nothing else,
+        for every alias pattern with q, r distinct objects: generic body (ruint<K>, W = 2^n) and one-limb body *)
+Theorem C15_recint_div_alias_free : forall n, 0 <= n -> Div_alias_free_upto (2 ^ n) (rd_div (2 ^ n) false).
+Proof. exact rd_div_generic_alias_free. Qed.
+Print Assumptions C15_recint_div_alias_free.
+Theorem C15_recint_div_onelimb_alias_free : forall W, Div_alias_free_upto W (rd_div W true).
+Proof. exact rd_div_onelimb_alias_free. Qed.
+Print Assumptions C15_recint_div_onelimb_alias_free.
+(* the sequential body  q = a / b; r = a % b;  violates it: div(a, r, a, b), a = 1000003, b = 97: r = 27 instead of 30 *)
+Theorem C15_recint_div_seeded_refuted : ~ Div_alias_free_upto W64 rd_udiv_qrnd_seeded.
+Proof. exact rd_div_seeded_refuted. Qed.
+Print Assumptions C15_recint_div_seeded_refuted.
+Theorem C15_recint_div_qr_alias_free : Rudiv_qr_alias_free.
+Proof. exact rudiv_qr_alias_free. Qed.
+Print Assumptions C15_recint_div_qr_alias_free.
+Theorem C15_recint_div_qr_value : Rudiv_qr_value.
+Proof. exact rudiv_qr_value. Qed.
+Print Assumptions C15_recint_div_qr_value.
+Theorem C15_recint_div_word_alias_free : Rudiv_word_alias_free.
+Proof. exact rudiv_word_alias_free. Qed.
+Print Assumptions C15_recint_div_word_alias_free.
+(* ---- add to the imports of Properties.v:  From C15 Require Import ModelExt ProofsExt.   (and: From Coq Require Import List. Import ListNotations.)
+   ---- Extension<BaseField> (extension.h) over the polynomial store: all 18 operations of the ring interface, every alias
+        pattern; _irred is a value of the domain, the four by-value operations copy their arguments first *)
+Theorem C15_extension_alias_free : forall p irred, Ext_alias_free p irred.
+Proof. exact ext_alias_free. Qed.
+Print Assumptions C15_extension_alias_free.
+(* seeded change C15-m6: axmy with its operands by const reference, GF(7)[X]/(X^2+1), axmy(r,a,b,r) *)
+Theorem C15_extension_axmy_byref_refuted : ~ Pure_destP (ext_op_byref 7 [1; 0; 1] 7).
+Proof. exact ext_axmy_byref_refuted. Qed.
+Print Assumptions C15_extension_axmy_byref_refuted.
+(* ---- Poly1Dom entry points of ModelExt.v: every destination receives a function of the operand VALUES only, for all
+        locations; no other caller object changes *)
+Theorem C15_poly_divmodin_alias_free : Poly_divmodin_alias_free.
+Proof. exact poly_divmodin_alias_free. Qed.
+Print Assumptions C15_poly_divmodin_alias_free.
+Theorem C15_poly_gcd_bezout_alias_free : Poly_gcd_bezout_alias_free.
+Proof. exact poly_gcd_bezout_alias_free. Qed.
+Print Assumptions C15_poly_gcd_bezout_alias_free.
+Theorem C15_poly_lcm_alias_free : Poly_lcm_alias_free.
+Proof. exact poly_lcm_alias_free. Qed.
+Print Assumptions C15_poly_lcm_alias_free.
+Theorem C15_poly_pdivmod_alias_free : Poly_pdivmod_alias_free.
+Proof. exact poly_pdivmod_alias_free. Qed.
+Print Assumptions C15_poly_pdivmod_alias_free.
+Theorem C15_poly_pmod_alias_free : Poly_pmod_alias_free.
+Proof. exact poly_pmod_alias_free. Qed.
+Print Assumptions C15_poly_pmod_alias_free.
+Theorem C15_poly_powmod_alias_free : Poly_powmod_alias_free.
+Proof. exact poly_powmod_alias_free. Qed.
+Print Assumptions C15_poly_powmod_alias_free.
+(* lcm, powmod, divin, modin, add(R,P,c), sub(R,P,c), sub(R,c,P), div(R,P,c) in the Pure_destP / InplaceP / FrameP form *)
+Theorem C15_polyB_alias_free : forall p k, PolyB_alias_free p k.
+Proof. exact polyB_alias_free. Qed.
+Print Assumptions C15_polyB_alias_free.
+(* the bodies run on the caller's objects without their guards violate the statements (concrete stores over GF(101)) *)
+Theorem C15_poly_divmodin_unguarded_refuted :
+  exists (h : pstore) (q r b : positive), q <> r /\
+    pexec (P_divmodin_unguarded 101 (U q) (U r) (U b)) h (U r) <> snd (divmodin_val 101 (h (U r)) (h (U b))).
+Proof. exact poly_divmodin_unguarded_refuted. Qed.
+Print Assumptions C15_poly_divmodin_unguarded_refuted.
+Theorem C15_poly_gcd_bezout_unguarded_refuted :
+  exists (h : pstore) (f s t a b : positive), f <> s /\ f <> t /\ s <> t /\
+    pexec (P_gcdx_unguarded 101 (U f) (U s) (U t) (U a) (U b)) h (U f) <> fst (fst (gcdx_val 101 (h (U a)) (h (U b)))).
+Proof. exact poly_gcd_bezout_unguarded_refuted. Qed.
+Print Assumptions C15_poly_gcd_bezout_unguarded_refuted.
+Theorem C15_poly_lcm_unguarded_refuted :
+  exists (h : pstore) (f a b : positive),
+    pexec (P_lcm_unguarded 101 (U f) (U a) (U b)) h (U f) <> lcm_val 101 (h (U a)) (h (U b)).
+Proof. exact poly_lcm_unguarded_refuted. Qed.
+Print Assumptions C15_poly_lcm_unguarded_refuted.
+Theorem C15_poly_pmod_unguarded_refuted :
+  exists (h : pstore) (r a b : positive),
+    snd (P_pmod_unguarded 101 (U r) (U a) (U b) h) (U r) <> ppmr 101 (h (U a)) (h (U b)).
+Proof. exact poly_pmod_unguarded_refuted. Qed.
+Print Assumptions C15_poly_pmod_unguarded_refuted.
